@@ -1,6 +1,15 @@
 """C01: clustering results are self-consistent for every algorithm and input."""
 import cluster_common as cc
-from cluster_common import CASE_HEADER, MODEL_TARGETS
+from cluster_common import CASE_HEADER, MODEL_TARGETS, GEN_FILES
+import os, sys
+from core import VERIF
+sys.path.insert(0, os.path.join(VERIF, "translator"))
+import tr_kcguard
+
+
+def translate(repo):
+    return tr_kcguard.translate(repo)
+
 
 PID = "C01"
 PROPS_FILE = "Props/C01.v"
@@ -33,6 +42,8 @@ run_impl = cc.run_case
 
 def oracle(c, out):
     if "err" in out:
+        if c["kind"] == "kcenters" and c["nclu"] is None and c["cutoff"] is None and out["err"] == "ImproperlyConfigured":
+            return []      # no stopping criterion at all: rejection is the documented behaviour
         return [("impl-error", "%s: %s" % (out["err"], out.get("msg")))]
     if c.get("ti") and not cc.is_metric_space([[cc.F(v) for v in row] for row in out["D"]]):
         return []   # the shortcut is only claimed for metrics obeying the triangle inequality; correspondence still runs
